@@ -14,6 +14,9 @@
 //! Grid: quality 2..11 x lgwin {10,12,14,16,18,20,22} x mode x stride/high-entropy/cdf/prior detection levels x
 //! catable/appendable/magic/use_dictionary/large_window/lgblock x custom dictionary (none, 1, 2, mid, > window) x input
 //! kinds of engine `dict` incl. inputs longer than the ring buffer x chunking.
+//! plus streaming HISTORIES: 2..6 chunks (tiny incompressible pieces of 20..200 random bytes — the compressed attempt is logged and then
+//! replaced by a stored meta-block — mixed with dictionary-word-rich text), each fed with PROCESS and followed by FLUSH, then FINISH,
+//! quality 2..11, with/without custom dictionary; same oracle, and the hook lines chain `num_bytes_encoded` from one meta-block to the next.
 //! non-trivial case = the encoder finished and at least one meta-block with a copy or dictionary command was replayed.
 //!
 //! Correspondence stage: `recoder pcq ...` — `process_command_queue` reached through the public (deprecated) wrappers
@@ -173,11 +176,11 @@ pub fn replay(mbs: &[Mb], prefix: &[u8], input: &[u8], lgwin: i32) -> Result<Rep
 // ------------------------------------------------------------------------------------------------ search
 
 #[derive(Clone, Debug)]
-struct RCase { lgwin: i32, q: i32, mode: u32, stride: u8, hedq: u8, cdf: u8, prior: u8, catable: bool, appendable: bool, magic: bool, use_dict: bool, large: bool, lgblock: i32, size_hint: usize, d: usize, dseed: u64, kind: u32, api: u32, iseed: u64 }
+struct RCase { hist: bool, lgwin: i32, q: i32, mode: u32, stride: u8, hedq: u8, cdf: u8, prior: u8, catable: bool, appendable: bool, magic: bool, use_dict: bool, large: bool, lgblock: i32, size_hint: usize, d: usize, dseed: u64, kind: u32, api: u32, iseed: u64 }
 impl RCase {
     fn json(&self) -> String {
-        format!("{{\"lgwin\": {}, \"quality\": {}, \"mode\": {}, \"stride\": {}, \"hedq\": {}, \"cdf\": {}, \"prior\": {}, \"catable\": {}, \"appendable\": {}, \"magic\": {}, \"use_dictionary\": {}, \"large_window\": {}, \"lgblock\": {}, \"size_hint\": {}, \"d\": {}, \"dict_seed\": {}, \"kind\": {}, \"api\": {}, \"input_seed\": {}}}",
-            self.lgwin, self.q, self.mode, self.stride, self.hedq, self.cdf, self.prior, self.catable, self.appendable, self.magic, self.use_dict, self.large, self.lgblock, self.size_hint, self.d, self.dseed, self.kind, self.api, self.iseed)
+        format!("{{\"history\": {}, \"lgwin\": {}, \"quality\": {}, \"mode\": {}, \"stride\": {}, \"hedq\": {}, \"cdf\": {}, \"prior\": {}, \"catable\": {}, \"appendable\": {}, \"magic\": {}, \"use_dictionary\": {}, \"large_window\": {}, \"lgblock\": {}, \"size_hint\": {}, \"d\": {}, \"dict_seed\": {}, \"kind\": {}, \"api\": {}, \"input_seed\": {}}}",
+            self.hist, self.lgwin, self.q, self.mode, self.stride, self.hedq, self.cdf, self.prior, self.catable, self.appendable, self.magic, self.use_dict, self.large, self.lgblock, self.size_hint, self.d, self.dseed, self.kind, self.api, self.iseed)
     }
     fn params(&self) -> BrotliEncoderParams {
         let mut p = base_params(self.q, self.lgwin);
@@ -230,10 +233,79 @@ fn hook_lines(dumps: &[bbs::verif_recoder_hook::LogMetaBlockDump], mbs: &[Mb], l
     }
 }
 
+/// chunks of a streaming history: tiny incompressible pieces (20..200 random bytes: the compressed attempt is larger than
+/// raw, so `WriteMetaBlockInternal` logs it and then falls back to a stored meta-block) mixed with text rich in
+/// static-dictionary words; a function of the seed alone
+fn history_chunks(iseed: u64) -> Vec<Vec<u8>> {
+    let mut rng = Rng::new(iseed ^ 0x4157);
+    let n = rng.range(2, 6) as usize;
+    let mut v = Vec::new();
+    let mut kind = rng.below(2);
+    for _ in 0..n {
+        let mut c: Vec<u8> = Vec::new();
+        if kind == 0 {
+            for _ in 0..rng.range(20, 200) { c.push(rng.next() as u8); }
+        } else {
+            let o = rng.below(120) as usize;
+            let l = rng.range(40, (TEXT.len() - o) as u64) as usize;
+            c.extend_from_slice(&TEXT[o..o + l]);
+            if rng.chance(1, 3) { c.extend_from_slice(b" The international government of information and development. "); }
+        }
+        v.push(c);
+        kind = if rng.chance(3, 4) { 1 - kind } else { kind };
+    }
+    v
+}
+
+/// streaming history through the encoder state API: each chunk is fed with PROCESS, then FLUSH is driven to completion;
+/// FINISH at the end.  Output window `out_chunk` bytes.
+fn encode_history<Cb>(chunks: &[Vec<u8>], dictv: &[u8], params: &BrotliEncoderParams, out_chunk: usize, cb: &mut Cb) -> Result<Vec<u8>, String>
+where Cb: FnMut(&mut interface::PredictionModeContextMap<InputReferenceMut>, &mut [interface::StaticCommand], InputPair, &mut EncAlloc) {
+    use brotli::enc::encode::{BrotliEncoderOperation, BrotliEncoderStateStruct, BrotliEncoderDestroyInstance};
+    let r = catch_unwind(AssertUnwindSafe(|| {
+        let mut s = BrotliEncoderStateStruct::new(EncAlloc::default());
+        s.params = params.clone();
+        if !dictv.is_empty() { s.set_custom_dictionary(dictv.len(), dictv); }
+        let mut out: Vec<u8> = Vec::new();
+        let mut obuf = vec![0u8; out_chunk.max(1)];
+        let mut steps = 0usize;
+        let total: usize = chunks.iter().map(|c| c.len()).sum();
+        let limit = 4096 + 16 * (total + 1024) / out_chunk.max(1) + 64 * chunks.len();
+        let mut ops: Vec<(BrotliEncoderOperation, &[u8])> = Vec::new();
+        for c in chunks.iter() { ops.push((BrotliEncoderOperation::BROTLI_OPERATION_PROCESS, &c[..])); ops.push((BrotliEncoderOperation::BROTLI_OPERATION_FLUSH, &[])); }
+        ops.push((BrotliEncoderOperation::BROTLI_OPERATION_FINISH, &[]));
+        for (op, data) in ops {
+            let mut pos = 0usize;
+            let is_finish = matches!(op, BrotliEncoderOperation::BROTLI_OPERATION_FINISH);
+            let is_process = matches!(op, BrotliEncoderOperation::BROTLI_OPERATION_PROCESS);
+            loop {
+                steps += 1;
+                if steps > limit { BrotliEncoderDestroyInstance(&mut s); return Err("livelock".to_string()); }
+                let mut avail_in = data.len() - pos;
+                let mut in_off = 0usize;
+                let mut avail_out = obuf.len();
+                let mut out_off = 0usize;
+                let mut tot = None;
+                let ok = s.compress_stream(op, &mut avail_in, &data[pos..], &mut in_off, &mut avail_out, &mut obuf, &mut out_off, &mut tot, cb);
+                pos += in_off;
+                out.extend_from_slice(&obuf[..out_off]);
+                if !ok { BrotliEncoderDestroyInstance(&mut s); return Err("compress_stream returned false".to_string()); }
+                if is_finish { if s.is_finished() { break; } }
+                else if is_process { if pos == data.len() { break; } }
+                else if !s.has_more_output() { break; }   // flush complete
+            }
+        }
+        BrotliEncoderDestroyInstance(&mut s);
+        Ok(out)
+    }));
+    match r { Ok(x) => x, Err(e) => Err(format!("panic: {}", panic_msg(&e))) }
+}
+
 fn run_rcase(c: &RCase, rep: &mut Report, lines: &mut Vec<(String, String)>) {
     let dictv = gen_dict(c.dseed, c.d);
     let dc = dict::Case { lgwin: c.lgwin, q: c.q, d: c.d, seed: c.dseed, magic: c.magic, kind: c.kind, api: c.api, iseed: c.iseed };
-    let input = dict::make_input(&dc, &dictv);
+    let chunks: Vec<Vec<u8>> = if c.hist { history_chunks(c.iseed) } else { vec![] };
+    let input = if c.hist { chunks.concat() } else { dict::make_input(&dc, &dictv) };
     let p = c.params();
     let mut mbs: Vec<Mb> = Vec::new();
     let mut rng = Rng::new(c.iseed ^ 0x7ec0);
@@ -241,18 +313,18 @@ fn run_rcase(c: &RCase, rep: &mut Report, lines: &mut Vec<(String, String)>) {
     bbs::verif_recoder_hook::start();
     let enc: Result<Vec<u8>, String> = {
         let mut cb = |_pm: &mut interface::PredictionModeContextMap<InputReferenceMut>, cmds: &mut [interface::StaticCommand], mb: InputPair, _a: &mut EncAlloc| { mbs.push(record(cmds, &mb)); };
-        match c.api {
+        if c.hist { encode_history(&chunks, &dictv, &p, if c.api == 0 { 1 << 16 } else { rng.range(1, 300) as usize }, &mut cb) } else { match c.api {
             0 => encode_stream_x(&input, &dictv, false, &p, &[1 << 22], 1 << 16, &mut cb).map(|x| x.0),
             1 => { let chunks: Vec<usize> = (0..5).map(|_| rng.range(1, 40000) as usize).collect(); let oc = rng.range(1, 9000) as usize; encode_stream_x(&input, &dictv, false, &p, &chunks, oc, &mut cb).map(|x| x.0) }
             _ => encode_oneshot(&input, &dictv, &p, rng.range(1, 70000) as usize, rng.range(1, 70000) as usize, &mut cb),
-        }
+        } }
     };
     #[cfg(recoder_hook)]
     { let dumps = bbs::verif_recoder_hook::take(); if enc.is_ok() { hook_lines(&dumps, &mbs, lines, rep); } }
     rep.evaluations += 1;
     rep.count(&format!("quality.{}", c.q));
     rep.count(&format!("lgwin.{}", c.lgwin));
-    rep.count(&format!("kind.{}", dict::KINDS[c.kind as usize]));
+    if c.hist { rep.count("history.flush_after_each_chunk"); rep.add("history.chunks", chunks.len() as u64); } else { rep.count(&format!("kind.{}", dict::KINDS[c.kind as usize])); }
     if c.d > 0 { rep.count("with_custom_dict"); }
     if c.stride != 0 { rep.count(&format!("stride.{}", c.stride)); }
     if c.hedq != 0 { rep.count("high_entropy_detection"); }
@@ -266,6 +338,7 @@ fn run_rcase(c: &RCase, rep: &mut Report, lines: &mut Vec<(String, String)>) {
         Err(e) => {
             let sig = if e.contains("stride_data.len() << 3") { "recoder:panic:choose-stride-assert".to_string() }
                 else if e.contains("copy_len") { format!("recoder:panic:copy-len-assert:{}", dtag) }
+                else if e.contains("left == right") { format!("recoder:panic:assert-eq:{}", dtag) }   // e.g. the expanded dictionary word != input (wrong position)
                 else if e.starts_with("panic") { format!("recoder:panic:other:{}", dtag) }
                 else if e == "livelock" { format!("recoder:livelock:{}", dtag) } else { format!("recoder:encode-fail:{}", dtag) };
             rep.violation(&sig, &format!("encoder with log_meta_block: {}", e), c.json());
@@ -303,11 +376,27 @@ fn rcases(thorough: bool, seed: u64) -> Vec<RCase> {
         let long = rng.chance(1, 12) && lgwin <= 16 && (q < 10 || lgwin <= 12);
         let catable = rng.chance(1, 5);
         cs.push(RCase {
-            lgwin, q, mode: rng.below(3) as u32,
+            hist: false, lgwin, q, mode: rng.below(3) as u32,
             stride: *rng.pick(&[0u8, 0, 0, 1, 2, 3, 4]), hedq: *rng.pick(&[0u8, 0, 1, 2]), cdf: *rng.pick(&[0u8, 0, 0, 1, 2]), prior: *rng.pick(&[0u8, 0, 1]),
             catable, appendable: rng.chance(1, 4), magic: rng.chance(1, 3), use_dict: if catable { rng.chance(1, 4) } else { !rng.chance(1, 6) },
             large: rng.chance(1, 8), lgblock: *rng.pick(&[0i32, 0, 0, 16, 17, 18, 20]), size_hint: *rng.pick(&[0usize, 0, 0, 1 << 20, 1 << 23]),
             d, dseed: rng.below(251), kind: if long { 4 } else { rng.below(4) as u32 }, api: rng.below(3) as u32, iseed: rng.next() >> 16,
+        });
+    }
+    // streaming histories: PROCESS chunk / FLUSH / ... / FINISH with the callback installed
+    let nh = if thorough { 6000 } else { 1200 };
+    for i in 0..nh {
+        let q = 2 + (i % 10) as i32;
+        let lgwin = *rng.pick(&[10i32, 12, 16, 18, 22]);
+        let w = 1usize << lgwin;
+        let d = match rng.below(6) { 0 => 1, 1 => rng.range(2, 300) as usize, 2 => w + 7, _ => 0 };
+        let catable = rng.chance(1, 8);
+        cs.push(RCase {
+            hist: true, lgwin, q, mode: rng.below(3) as u32,
+            stride: *rng.pick(&[0u8, 0, 0, 1, 3]), hedq: *rng.pick(&[0u8, 0, 1]), cdf: *rng.pick(&[0u8, 0, 0, 1]), prior: *rng.pick(&[0u8, 0, 1]),
+            catable, appendable: rng.chance(1, 5), magic: rng.chance(1, 4), use_dict: !catable,
+            large: false, lgblock: 0, size_hint: 0,
+            d, dseed: rng.below(251), kind: 0, api: rng.below(2) as u32, iseed: rng.next() >> 16,
         });
     }
     cs
